@@ -451,7 +451,7 @@ def _unpack_filter_extensible_header(
 
     header_split.pop(0)
 
-    if header_split and header_split[0] == "dn":
+    if header_split and header_split[0].lower() == "dn":
         for_dn = True
         header_split.pop(0)
 
